@@ -15,6 +15,14 @@
 (*   "real"  descriptors of float regions (kind, placement, size), and the *)
 (*           special values (empty / full / zero-value objects)            *)
 (*   "rect"  lat-lng rectangles on the pi/8 x pi/4 grid                    *)
+(*   "band"  lat-lng rectangles whose low (high, in the south) latitude    *)
+(*           edge passes just under the apex of a cube edge: the edge of   *)
+(*           an equatorial face cell is a great circle that bulges from    *)
+(*           35.26 degrees at the cube corners to 45 degrees in the middle,*)
+(*           so such a rectangle meets the face cell only in a sliver      *)
+(*           between two crossings of one cell edge (no vertex of either   *)
+(*           inside the other); 20..170 degrees wide, also across the      *)
+(*           antimeridian (face 3)                                         *)
 (* For the discrete kinds TLC emits the region's leaf set and what the     *)
 (* postconditions of Coverer.tla need (normal form, least covering sizes), *)
 (* the exact results of Denormalize and the exact verdicts of IsCanonical. *)
@@ -37,6 +45,7 @@ CONSTANTS OneA,        \* subset of 0..15: low four membership bits (work partit
           GridFaces, GridG, GridEvery, GridOff,
           RealKinds, RealPlaces, RealSizes, RealEvery,
           RectEvery, RectOff,
+          BandFaces, BandEvery, BandOff,   \* "band": equatorial faces (0, 1, 3, 4) and sampling
           ObsFile      \* trace mode: ndjson written by the harness ("" in generator mode)
 
 \* ---- configurations ---------------------------------------------------------
@@ -117,6 +126,7 @@ Init ==
     \/ t \in {<<"grid", f>> : f \in GridFaces}
     \/ t \in {<<"real", k>> : k \in RealKinds}
     \/ t \in {<<"rect", a>> : a \in IF RectEvery > 0 THEN -4..3 ELSE {}}
+    \/ t \in {<<"band", f>> : f \in BandFaces}
 Next ==
     /\ Len(t) = 2
     /\ \/ Kind = "one" /\ t' \in {<<"one", t[2], b>> : b \in {x \in 0..4095 : x % Stride = Off}}
@@ -131,6 +141,10 @@ Next ==
        \/ Kind = "real" /\ t' \in {<<"real", t[2], p, s>> : p \in RealPlaces \cap (1..Len(PlaceSeq)), s \in RealSizes}
        \/ Kind = "rect" /\ t' \in {<<"rect", t[2], lathi, lnglo, lnghi>> :
                                       lathi \in t[2]..4, lnglo \in -4..4, lnghi \in -4..4}
+       \* hemisphere, gap below the apex, width, offset of the centre longitude, height: indices
+       \* into the tables of the harness (BandGaps, BandWidths, BandOffsets, BandHeights)
+       \/ Kind = "band" /\ t' \in {<<"band", t[2], sg, g, w, o, h>> :
+                                      sg \in 0..1, g \in 0..3, w \in 0..5, o \in 0..2, h \in 0..2}
 
 \* ---- model theorems --------------------------------------------------------------
 Caps == {4, 30}
@@ -236,12 +250,21 @@ EmitRect ==
                                   cfgs |-> RelFor(RectHash)])>>)
     ELSE TRUE
 
+BandHash == ((((t[2] * 2 + t[3]) * 4 + t[4]) * 6 + t[5]) * 3 + t[6]) * 3 + t[7]
+EmitBand ==
+    IF BandHash % BandEvery = BandOff
+    THEN PrintT(<<"CASE", ToJson([op |-> "region", kind |-> "band", place |-> <<0, 0, 0, 0, 0>>, size |-> 0,
+                                  band |-> <<t[2], t[3], t[4], t[5], t[6], t[7]>>,
+                                  cfgs |-> RelFor(BandHash)])>>)
+    ELSE TRUE
+
 Emit ==
     IF Len(t) = 2 /\ Kind = "one" THEN PrintT(<<"CFGS", ToJson([cfgs |-> CfgSeq])>>)
     ELSE IF Full THEN EmitDiscrete
     ELSE IF Kind = "grid" /\ Len(t) = 4 THEN EmitGrid
     ELSE IF Kind = "real" /\ Len(t) = 4 THEN EmitReal
     ELSE IF Kind = "rect" /\ Len(t) = 5 THEN EmitRect
+    ELSE IF Kind = "band" /\ Len(t) = 7 THEN EmitBand
     ELSE TRUE
 
 \* ---- direction B: validate logged results against the postconditions ---------------
